@@ -107,7 +107,7 @@ func c19Cases(level int) []SCase {
 	}
 	// object / map schemas that are allOf / anyOf branches themselves (such types get unmarshalers even when they are maps)
 	for _, pos := range space.Positions(1) {
-		if pos.Name != "anyof-branch" && pos.Name != "allof-branch" {
+		if pos.Name != "anyof-branch" && pos.Name != "allof-branch" && pos.Name != "anyof-branch-closed" {
 			continue
 		}
 		for _, l := range space.Leaves(level) {
